@@ -352,6 +352,7 @@ pub fn run(tier: Tier) -> i32 {
         }
     }
     rep.set("rule", json!("Ordered lists of 1-3 distinct references (thorough tier: also every set of 4, ascending and descending) from 11 elements with known shapes (five rects: overlapping, nested, disjoint, negative/fractional; circle, ellipse, line, group, a previous surround element, a previous inside element) x container {rect, circle, ellipse} x {surround, inside} x 10 margin forms (none, 1-4 values, mixed separators, percent, percent+absolute, negative, zero). Oracle from the references' known geometry: surround rect = union grown by margin exactly; circle/ellipse centred on that box and enclosing its corners (ellipse: corners not outside the curve; circle: radius = the half-diagonal of the box); percent margins only required to enclose. inside: rect among rect references = intersection shrunk by margin exactly; every boundary sample point of the result lies within every listed element's own area and within the intersection box shrunk by absolute margins; an empty intersection must not yield a positioned element. surround/inside/margin absent from the output. Non-trivial = Ok with observable geometry and all clauses satisfied."));
+    rep.set("also_later", json!("Rounds 3-5 added: inside a turned or sheared reference (6 references x 3 containers x 2 margins, every boundary point taken back into the reference's user space); the element's own transform; a <text> reference with child elements; a nested <svg> reference without a size; the circumscribed circle (the circle oracle demands r = half-diagonal); leaks on paint servers, filters, descriptive and animation elements; other user space and transforms which cannot be undone (open)."));
     rep.set("also", json!("Also: margin without surround / inside (attribute, through <defaults>, on a circle) never reaches the output; '^' in a reference list together with a forward reference. Second review round: references carrying translate / matrix / rotate(90) / scale transforms (rect, circle, ellipse; surround and inside), the attributes on elements they do not place (g, symbol, a, switch, defs, clipPath, root svg, text with children, tspan, foreignObject, image/line/text), a <text> reference moved by text-loc."));
     let st = run_space(cases.len(), |i| check(&cases[i]));
     let ms = margins();
